@@ -1,6 +1,6 @@
 import EaselModel.Alphabet.Model3
 /-! # C08 — the ss buffer of a reused `ESL_SQ` across `esl_sq_GetFromMSA` calls: with the buffer allocated to `salloc` cells
-no history of calls overflows it; allocated to the exact SS-line length (the code before the proposed fix) the second, wider
+no history of calls overflows it; allocated to the exact SS-line length (the code before fix 4807e60) the second, wider
 call does -/
 namespace EaselModel.Alphabet.Sq
 
